@@ -155,6 +155,11 @@ end
 
 def extractPageSlots (dom : List Node) : SlotScope := pageSlotsList [] dom
 
+/-- the slots a page hands to its layout chain, as `template.layout` extracts them: the page is parsed once more and its v-once elements
+    are stamped with the ids they also carry in the page's own render (fix: they used to carry none, so two different v-once elements in
+    slot content shared the empty id and the first suppressed the second) -/
+def pageSlotsOf (page : Str) (dom : List Node) : SlotScope := extractPageSlots (assignSeenAttrs page dom)
+
 /-- `evalInclude`'s merge: an inherited slot fills a name the include tag did not supply itself -/
 def mergeInherited (own inherited : SlotScope) : SlotScope :=
   inherited.foldl (fun (acc : SlotScope) (e : Str × SlotContent) => if (acc.lookup e.1).isSome then acc else acc ++ [e]) own
